@@ -108,9 +108,24 @@ class Skeleton:
         self.axml = manifest_axml(min_sdk)
         self.entries = [('AndroidManifest.xml', self.axml)] + list(extra)
         self.mf, sections = jar_manifest(self.entries, digest, created_by)
+        self.sections = sections
         self.sf = signature_file(self.mf, sections, digest, created_by)
         self.base = base
 
     def apk(self, sf, block, ext, deflate=False):
         return pack(self.entries + [('META-INF/MANIFEST.MF', self.mf), ('META-INF/%s.SF' % self.base, sf),
                                     ('META-INF/%s.%s' % (self.base, ext), block)], deflate)
+
+    def signature_file(self, digest, created_by):
+        """The .SF of one more signer over the same manifest (each signer has its own X.SF + X.RSA|DSA|EC pair)."""
+        return signature_file(self.mf, self.sections, digest, created_by)
+
+    def apk_multi(self, meta_entries, deflate=False):
+        """meta_entries: [(name, bytes)] - the .SF / signature block files of all signers, in the order given."""
+        return pack(self.entries + [('META-INF/MANIFEST.MF', self.mf)] + list(meta_entries), deflate)
+
+
+def sf_name_of(block_name):
+    """JAR signing convention: X.SF belongs to X.RSA | X.DSA | X.EC, X = everything before the LAST dot of the block's
+    file name (JAR specification "Signed JAR File"; apksig V1SchemeVerifier pairs them by lastIndexOf('.'))."""
+    return block_name[:block_name.rindex('.')] + '.SF'
